@@ -222,6 +222,8 @@ func init() {
 			}
 			return strEq(normStr(ab[len(ab)-len(bb):]), args[1])
 		},
+		"internal/stringslite.Clone": func(fr *frame, args []value) value { return args[0] },
+		"strings.Clone":              func(fr *frame, args []value) value { return args[0] },
 		"unsafe.String": func(fr *frame, args []value) value {
 			return externals["unsafe.String"](fr, args)
 		},
@@ -247,12 +249,9 @@ func init() {
 		"(*strings.Builder).WriteRune": func(fr *frame, args []value) value {
 			r := args[1]
 			if sr, ok := r.(sym); ok {
-				// ASCII fast path symbolic, else concretise
-				if truth(mkSym(smt.Cmp("bvult", sr.e, smt.Const(32, 0x80)), types.Bool)) {
-					sbAppend(args[0], []value{mkSym(smt.Extract(7, 0, sr.e), types.Uint8)})
-					return tuple{1, iface{}}
-				}
-				r = int32(cur.concretize(sr.e))
+				bs := strBytes(symRuneToString(sr))
+				sbAppend(args[0], bs)
+				return tuple{len(bs), iface{}}
 			}
 			var buf [4]byte
 			n := utf8.EncodeRune(buf[:], r.(int32))
